@@ -182,7 +182,7 @@ func runEnter(c enterCase) (msg string) {
 		}
 	}
 	// (b) threads mutate the inner value through the shared container
-	worker := suFn("s, get, mutate, n, base", `for (i = 0; i < n; ++i) mutate(get(s), base + i)`)
+	worker := suFn("s, get, mutate, n", `for (i = 0; i < n; ++i) mutate(get(s), i)`) // Thread.Call takes at most 4 arguments
 	get, mutate := suFn("s", ep.Get), suFn("x, i", vk.Mutate)
 	errs := make([]string, c.Threads)
 	var wg sync.WaitGroup
@@ -195,7 +195,7 @@ func runEnter(c enterCase) (msg string) {
 			<-start
 			yield(c.Yields[t%len(c.Yields)])
 			errs[t] = catchGo(func() {
-				th.Call(worker, world, get, mutate, core.IntVal(c.N), core.IntVal(t*100000))
+				th.Call(worker, world, get, mutate, core.IntVal(c.N))
 			})
 		}(t)
 	}
